@@ -429,8 +429,12 @@ def r10_profile_order(ctx):
     f = repo.method(repo.cls('RoadmParams', 'gnpy.core.parameters'), 'get_roadm_path_impairments')
     fills = find('V_d[V_i] = RoadmImpairment(E_x)', f.node)
     rets = [n for n in walk_no_nested(f.node) if isinstance(n, ast.Return) and n.value is not None]
-    ok = len(fills) == 1 and isinstance(enclosing(fills[0][0], ast.For), ast.For) and len(rets) >= 1 and \
-        isinstance(rets[-1].value, ast.Name) and rets[-1].value.id == fills[0][1]['V_d']
+    # every returned value is the filled dict itself or the empty dict of the no-profile case (whatever the order of the returns)
+    rets = sorted(rets, key=lambda n: isinstance(n.value, ast.Name))
+    named = [n for n in rets if isinstance(n.value, ast.Name)]
+    ok = len(fills) == 1 and isinstance(enclosing(fills[0][0], ast.For), ast.For) and len(named) >= 1 and \
+        all(n.value.id == fills[0][1]['V_d'] for n in named) and \
+        all(isinstance(n.value, ast.Dict) and not n.value.keys for n in rets if n not in named)
     if ok:
         lp = enclosing(fills[0][0], ast.For)
         ok = isinstance(lp.iter, ast.Name) and lp.iter.id in f.params
